@@ -9,6 +9,7 @@
 From Coq Require Import List.
 From WacV Require Import Str Graph Wiring WiringSpec EncodeModel WiringDecode WiringSim WiringCorrect WiringWitness.
 Import ListNotations.
+Local Open Scope nat_scope.
 
 (** (a) a log that decodes has no dangling or ill-sorted structural index
         (also C01 [structural_indices_in_scope]) *)
